@@ -307,7 +307,13 @@ pub fn frag_case_strategy(max_ops: usize) -> impl Strategy<Value = FragCase> {
     (
         0u8..4,
         any::<bool>(),
-        prop_oneof![2 => Just(0u64), 2 => 0u64..10_000_000, 1 => 0u64..(1u64 << 40)],
+        prop_oneof![
+            4 => Just(0u64),
+            4 => 0u64..10_000_000,
+            2 => 0u64..(1u64 << 40),
+            // dictionary: DTS values whose bytes spell a box type, at every byte alignment of the 64-bit field
+            1 => (0usize..8, 0u32..5).prop_map(|(i, sh)| (u32::from_be_bytes(*[b"trun", b"mdat", b"moof", b"tfdt", b"traf", b"mfhd", b"tfhd", b"stco"][i]) as u64) << (8 * sh)),
+        ],
         prop_oneof![3 => 16u16..4097, 1 => 1u16..=65535],
         prop_oneof![3 => 16u16..2161, 1 => 1u16..=65535],
         (
